@@ -9,7 +9,8 @@ RULE = ('surface functions: cases = (function in {calc_surface_energy, calc_cum_
         'up/down reductions scalar or ndarray (separate objects, or one float64 array object passed for both: 3 in 10 cases, nodal), stt >= 0, nodal x trim x start in {T,F}^3), called on an AccSignal with the travel times given as python scalar, list or ndarray; '
         'every call is made twice on the same argument objects: ndarray arguments bit-identical afterwards and both results identical. '
         'Exact domain (tolerance 0): integer records (|a| <= 10, 1..60 samples, incl. records ending non-zero), dt = 2^-j, travel times and stt multiples of dt/8 '
-        '(zero, fractional, half- and whole-sample delays, delays beyond the record), reductions multiples of 1/4 (incl. 0 and negative). '
+        '(zero, fractional, half- and whole-sample delays, delays beyond the record), reductions multiples of 1/4 (incl. 0 and negative); '
+        '1 in 10 (1 in 5 of the relational runs): travel times of whole seconds held as INTEGERS (python int, list of int, int64 ndarray) with dt = 2^-j >= 1/8 and fractional scalar reductions (multiples of 1/8). '
         'Tolerance domain (1e-9 of the largest model value): float records incl. the shipped motion, dt in {0.01,0.005,0.02}, fractional travel times kept 0.05 samples away from every int()/interp branch point. '
         'With trim and start, int(stt/dt) - min int(tt/dt) <= npts is kept (numpy can raise beyond it). '
         'Relational predicates evaluated inside Coq on implementation outputs only: rows = #travel times, npts columns when trimmed, cumulative rows start >= 0 and never decrease, '
@@ -71,9 +72,12 @@ def replay_call(rp):
     return ts.join_values_w_shifts(np.array(a['values']), np.array(a['shifts'], dtype=int), jtype=a['jtype']).tolist()
 
 
-def gen_config(rng, exact, tier, shared_red=False):
+def gen_config(rng, exact, tier, shared_red=False, int_tts=False):
     """one configuration of the surface functions (all values python floats).
-    shared_red: nodal surface, float64 ndarray reductions, and the SAME array object is passed for up_red and down_red"""
+    shared_red: nodal surface, float64 ndarray reductions, and the SAME array object is passed for up_red and down_red
+    int_tts (exact domain): travel times are whole seconds held as INTEGERS (python int / list of int / integer ndarray), dt = 2^-j >= 1/8,
+    and the reductions are scalars of which at least one is not a whole number (the same real inputs as with float travel times)"""
+    int_tts = bool(int_tts and exact and not shared_red)
     if exact:
         n = gens.small_len(rng, 1, 60)
         vals, style = gens.int_record(rng, n, amp=rng.choice([3, 10]))
@@ -91,6 +95,12 @@ def gen_config(rng, exact, tier, shared_red=False):
             tts = [dt / 2 * rng.randint(0, 10) for _ in range(ntt)]
         stt = unit * rng.randint(0, rng.choice([0, 4, 16, 40]))
         redv = [1.0, 1.0, 0.5, 0.75, 1.25, 2.0, 0.25, 0.0, -1.0, 1.5]
+        if int_tts:
+            dt = 2.0 ** (-rng.randint(0, 3))
+            tts = [rng.randint(0, rng.choice([2, 4, 4])) for _ in range(ntt)]
+            if not any(tts):
+                tts[rng.randrange(ntt)] = rng.randint(1, 3)
+            stt = (dt / rng.choice([4, 2, 1])) * rng.randint(0, rng.choice([0, 4, 16]))
     else:
         n = gens.small_len(rng, 2, 140)
         vals, style = gens.float_record(rng, n)
@@ -100,7 +110,7 @@ def gen_config(rng, exact, tier, shared_red=False):
         tts = [dt * (rng.randint(0, rng.choice([3, 10, 40])) + fr()) for _ in range(ntt)]
         stt = dt * (rng.randint(0, rng.choice([0, 5, 30])) + fr())
         redv = None
-    arr_red = shared_red or rng.random() < 0.45
+    arr_red = shared_red or (rng.random() < 0.45 and not int_tts)
     same_obj = False
     if arr_red:
         ur = np.array([rng.choice(redv) if redv else rng.uniform(0.2, 1.5) for _ in range(ntt)])
@@ -111,6 +121,12 @@ def gen_config(rng, exact, tier, shared_red=False):
     else:
         ur = rng.choice(redv) if redv else rng.uniform(0.2, 1.5)
         dr = ur if rng.random() < 0.5 else (rng.choice(redv) if redv else rng.uniform(0.2, 1.5))
+        if int_tts:      # fractional scalar factors (0.9, 0.6 are not dyadic: multiples of 1/8 keep the arithmetic exact)
+            frv = [0.5, 0.75, 1.25, 0.25, 1.5, 0.875, 0.625, -0.5, 2.5]
+            if float(ur).is_integer():
+                ur = rng.choice(frv)
+            if rng.random() < 0.6 or float(dr).is_integer() and rng.random() < 0.5:
+                dr = rng.choice(frv)
     nodal, trim, start = shared_red or rng.random() < 0.55, rng.random() < 0.5, rng.random() < 0.5
     if shared_red and not np.any(ur):
         ur[0] = dr[0] = 0.75
@@ -118,12 +134,13 @@ def gen_config(rng, exact, tier, shared_red=False):
         sds_min = min(int(t / dt) for t in tts)
         while int(stt / dt) - sds_min > n:
             stt = stt / 2
-    return dict(vals=[float(x) for x in vals], dt=float(dt), tts=[float(t) for t in tts], ur=ur, dr=dr, stt=float(stt),
-                nodal=nodal, trim=trim, start=start, exact=exact, same_red_obj=same_obj)
+    return dict(vals=[float(x) for x in vals], dt=float(dt), tts=[int(t) for t in tts] if int_tts else [float(t) for t in tts], ur=ur, dr=dr,
+                stt=float(stt), nodal=nodal, trim=trim, start=start, exact=exact, same_red_obj=same_obj, int_tts=int_tts)
 
 
 def args_of(cfg, which, tt_kind):
     return {'values': cfg['vals'], 'dt': cfg['dt'], 'travel_times': cfg['tts'] if tt_kind != 'scalar' else cfg['tts'][0], 'tt_kind': tt_kind,
+            'tt_dtype': 'int' if cfg.get('int_tts') else 'float',
             'up_red': cfg['ur'].tolist() if hasattr(cfg['ur'], '__len__') else cfg['ur'],
             'down_red': cfg['dr'].tolist() if hasattr(cfg['dr'], '__len__') else cfg['dr'],
             'stt': cfg['stt'], 'nodal': cfg['nodal'], 'trim': cfg['trim'], 'start': cfg['start'],
@@ -138,6 +155,8 @@ def run_cfg(rep, cfg, which, rng):
     ntt = len(cfg['tts'])
     tt_kind = rng.choice(['scalar', 'list', 'array']) if ntt == 1 else rng.choice(['list', 'array'])
     tts_arg = cfg['tts'][0] if tt_kind == 'scalar' else (list(cfg['tts']) if tt_kind == 'list' else np.array(cfg['tts']))
+    if cfg.get('int_tts'):      # whole seconds held as integers: python int, list of int, integer ndarray
+        assert isinstance(cfg['tts'][0], int) and (tt_kind != 'array' or tts_arg.dtype.kind == 'i')
     ur, dr = cfg['ur'], cfg['dr']
     ur = ur.copy() if hasattr(ur, '__len__') else ur
     dr = dr.copy() if hasattr(dr, '__len__') else dr
@@ -236,7 +255,8 @@ def run(rep, rng, tier):
 
     # --- model correspondence, exact and tolerance domains
     for k in range(n_exact + n_tol):
-        cfg = gen_config(rng, k < n_exact, tier, shared_red=(k % 10 >= 7))   # 3 in 10 (all three functions): one array object for both reductions
+        # 3 in 10 (all three functions): one array object for both reductions; 1 in 10 (exact domain): integer travel times + fractional scalar reductions
+        cfg = gen_config(rng, k < n_exact, tier, shared_red=(k % 10 >= 7), int_tts=(k < n_exact and k % 10 == 3))
         which = k % 3
         r, tt_kind = run_cfg(rep, cfg, which, rng)
         if r is not None:
@@ -244,7 +264,7 @@ def run(rep, rng, tier):
 
     # --- relational clauses on implementation outputs (exact domain)
     for k in range(n_rel):
-        cfg = gen_config(rng, True, tier)
+        cfg = gen_config(rng, True, tier, int_tts=(k % 5 == 2))
         which = k % 3
         r1, tk = run_cfg(rep, cfg, which, rng)
         if r1 is None:
